@@ -134,3 +134,142 @@ static inline int post_verif_matmul_slices_43(a4_t idx, a4_t l, a3_t r, a4_t sha
       && TUP_GET(TUP_GET(ret, 0), 2) == ARR_AT(idx, 2) && TUP_GET(TUP_GET(ret, 0), 2) < ARR_AT(l, 2)
       && TUP_GET(TUP_GET(ret, 1), 0) == MS_SEL(ARR_AT(r, 0), ARR_AT(idx, 1)) && TUP_GET(TUP_GET(ret, 1), 0) < ARR_AT(r, 0)
       && TUP_GET(TUP_GET(ret, 1), 2) == ARR_AT(idx, 3) && TUP_GET(TUP_GET(ret, 1), 2) < ARR_AT(r, 2); }
+
+/* ------------------------------------------------------------------ matmulv2 pipeline arguments
+ *   a (..A.., n, k)  --tile(1,..,1,m)-->  (..A.., n, k*m)  --reshape-->  (..A.., n, m, k)
+ *   b (..B.., k, m)  --transpose(last two)-->  (..B.., m, k)  --reshape-->  (..B.., 1, m, k)
+ *   multiply (broadcast) and sum over the last axis.  With a 1-d operand nothing is tiled / inserted.            */
+#define DIM_OK(v) (SV_LEN(v) >= 1UL && SV_LEN(v) <= CAP)
+#define BOTH2(l, r) (SV_LEN(l) >= 2UL && SV_LEN(r) >= 2UL)
+/* identity permutation of n axes with the last two exchanged when n >= 2 */
+#define SWAP_LAST2(n, k) (((n) >= 2UL && (k) == (n) - 1UL) ? (n) - 2UL : ((n) >= 2UL && (k) == (n) - 2UL) ? (n) - 1UL : (k))
+static inline int pre_verif_matmul_rhs_transpose(unsigned long rhs_dim) { return rhs_dim <= CAP; }
+static inline int post_verif_matmul_rhs_transpose(unsigned long rhs_dim, sv_t ret)
+{ return SV_LEN(ret) == rhs_dim && IMPLIES(g < rhs_dim, SV_AT(ret, g) == SWAP_LAST2(rhs_dim, g) && SV_AT(ret, g) < rhs_dim); }
+
+static inline int pre_verif_matmul_lhs_tile(sv_t lhs, sv_t rhs) { return DIM_OK(lhs) && DIM_OK(rhs); }
+static inline int post_verif_matmul_lhs_tile(sv_t lhs, sv_t rhs, sv_t ret)
+{ return SV_LEN(ret) == SV_LEN(lhs)
+      && IMPLIES(g < SV_LEN(lhs), SV_AT(ret, g) == ((BOTH2(lhs, rhs) && g == SV_LEN(lhs) - 1UL) ? SV_AT(rhs, SV_LEN(rhs) - 1UL) : 1UL)); }
+
+static inline int pre_verif_matmul_lhs_reshape(sv_t lhs, sv_t rhs) { return DIM_OK(lhs) && DIM_OK(rhs); }
+static inline int post_verif_matmul_lhs_reshape(sv_t lhs, sv_t rhs, sv9_t ret)
+{
+  unsigned long n = SV_LEN(lhs);
+  if (!BOTH2(lhs, rhs)) return SV_LEN(ret) == n && IMPLIES(g < n, SV_AT(ret, g) == SV_AT(lhs, g));
+  return SV_LEN(ret) == n + 1UL
+      && IMPLIES(g < n + 1UL, SV_AT(ret, g) == (g + 1UL < n ? SV_AT(lhs, g) : g + 1UL == n ? SV_AT(rhs, SV_LEN(rhs) - 1UL) : SV_AT(lhs, n - 1UL)));
+}
+static inline int pre_verif_matmul_rhs_reshape(sv_t lhs, sv_t rhs) { return DIM_OK(lhs) && DIM_OK(rhs); }
+static inline int post_verif_matmul_rhs_reshape(sv_t lhs, sv_t rhs, sv9_t ret)
+{
+  unsigned long n = SV_LEN(rhs);
+  if (!BOTH2(lhs, rhs)) return SV_LEN(ret) == n && IMPLIES(g < n, SV_AT(ret, g) == SV_AT(rhs, g));
+  return SV_LEN(ret) == n + 1UL
+      && IMPLIES(g < n + 1UL, SV_AT(ret, g) == (g + 2UL < n ? SV_AT(rhs, g) : g + 2UL == n ? 1UL : SV_AT(rhs, g - 1UL)));
+}
+
+/* ------------------------------------------------------------------ dot (numpy.dot): a (..A.., k) . b (..B.., k, m) -> (..A.., ..B.., m)
+ *   a --tile(1,..,1,m)--> --reshape--> (..A.., 1 x (rdim-2), m, k);  b --transpose(last two)--> (..B.., m, k); multiply, sum(-1).
+ *   b 1-d: a is only reshaped to itself ((..A.., k) with k taken from b).                                            */
+static inline int pre_verif_dot_rhs_transpose(sv_t rhs) { return SV_LEN(rhs) <= CAP; }
+static inline int post_verif_dot_rhs_transpose(sv_t rhs, sv_t ret)
+{ unsigned long n = SV_LEN(rhs); return SV_LEN(ret) == n && IMPLIES(g < n, SV_AT(ret, g) == SWAP_LAST2(n, g) && SV_AT(ret, g) < n); }
+static inline int pre_verif_dot_lhs_tile(sv_t lhs, sv_t rhs) { return DIM_OK(lhs) && DIM_OK(rhs); }
+static inline int post_verif_dot_lhs_tile(sv_t lhs, sv_t rhs, sv_t ret)
+{ return SV_LEN(ret) == SV_LEN(lhs)
+      && IMPLIES(g < SV_LEN(lhs), SV_AT(ret, g) == ((SV_LEN(rhs) >= 2UL && g == SV_LEN(lhs) - 1UL) ? SV_AT(rhs, SV_LEN(rhs) - 1UL) : 1UL)); }
+static inline int pre_verif_dot_lhs_reshape(sv_t lhs, sv_t rhs) { return DIM_OK(lhs) && DIM_OK(rhs); }
+static inline int post_verif_dot_lhs_reshape(sv_t lhs, sv_t rhs, sv15_t ret)
+{
+  unsigned long n = SV_LEN(lhs), m = SV_LEN(rhs);
+  if (m == 1UL) return SV_LEN(ret) == n && IMPLIES(g < n, SV_AT(ret, g) == (g + 1UL < n ? SV_AT(lhs, g) : SV_AT(rhs, 0UL)));
+  unsigned long d = n + m - 1UL;
+  return SV_LEN(ret) == d
+      && IMPLIES(g < d, SV_AT(ret, g) == (g + 1UL < n ? SV_AT(lhs, g) : g + 2UL < d ? 1UL : g + 2UL == d ? SV_AT(rhs, m - 1UL) : SV_AT(rhs, m - 2UL)));
+}
+
+/* ------------------------------------------------------------------ inner (numpy.inner): a (..A.., k), b (..B.., k) -> (..A.., ..B..)
+ *   a --reshape--> (..A.., 1 x (rdim-1), k); multiply with b (broadcast), sum(-1)                                     */
+static inline int pre_verif_inner_lhs_reshape(sv_t lhs, sv_t rhs) { return DIM_OK(lhs) && DIM_OK(rhs); }
+static inline int post_verif_inner_lhs_reshape(sv_t lhs, sv_t rhs, sv15_t ret)
+{
+  unsigned long n = SV_LEN(lhs), d = SV_LEN(lhs) + SV_LEN(rhs) - 1UL;
+  return SV_LEN(ret) == d && IMPLIES(g < d, SV_AT(ret, g) == (g + 1UL < n ? SV_AT(lhs, g) : g + 1UL < d ? 1UL : SV_AT(lhs, n - 1UL)));
+}
+
+/* ------------------------------------------------------------------ tensordot, integer axes n: contract the last n axes of a with the first n of b
+ *   a: no transposition;  b --transpose--> (b[n:], b[:n]);  a --reshape--> (a[:-n], 1 x (rdim-n), a[-n:]); multiply, sum over the last n axes */
+static inline int pre_verif_tensordot_lhs_transpose_n(unsigned long lhs_dim, unsigned long n) { return lhs_dim <= CAP && n <= lhs_dim; }
+static inline int post_verif_tensordot_lhs_transpose_n(unsigned long lhs_dim, unsigned long n, sv_t ret)
+{ return SV_LEN(ret) == lhs_dim && IMPLIES(g < lhs_dim, SV_AT(ret, g) == g); }
+static inline int pre_verif_tensordot_rhs_transpose_n(unsigned long rhs_dim, unsigned long n) { return rhs_dim <= CAP && n <= rhs_dim; }
+static inline int post_verif_tensordot_rhs_transpose_n(unsigned long rhs_dim, unsigned long n, sv_t ret)
+{ return SV_LEN(ret) == rhs_dim && IMPLIES(g < rhs_dim, SV_AT(ret, g) == (g < rhs_dim - n ? g + n : g - (rhs_dim - n)) && SV_AT(ret, g) < rhs_dim); }
+/* lhs: the already transposed shape (contracted axes last); only the number of contracted axes is read from sum_axes.
+ * The result type chosen by the library holds 15 extents: lhs_dim + rhs_dim - n <= 15 is required (8-d x 8-d with n = 0 does not fit). */
+static inline int pre_verif_tensordot_lhs_reshape(sv_t lhs, sv_t rhs, svi_t sum_axes)
+{ return DIM_OK(lhs) && DIM_OK(rhs) && SV_LEN(sum_axes) <= SV_LEN(lhs) && SV_LEN(sum_axes) <= SV_LEN(rhs)
+      && SV_LEN(lhs) + SV_LEN(rhs) - SV_LEN(sum_axes) <= 15UL; }
+static inline int post_verif_tensordot_lhs_reshape(sv_t lhs, sv_t rhs, svi_t sum_axes, sv15_t ret)
+{
+  unsigned long n = SV_LEN(sum_axes), l = SV_LEN(lhs), d = SV_LEN(lhs) + SV_LEN(rhs) - SV_LEN(sum_axes);
+  return SV_LEN(ret) == d && IMPLIES(g < d, SV_AT(ret, g) == (g < l - n ? SV_AT(lhs, g) : g < d - n ? 1UL : SV_AT(lhs, g - (d - l))));
+}
+
+/* ------------------------------------------------------------------ kron (numpy.kron): shapes right-aligned, result extent = product of the aligned extents
+ *   a --reshape--> (a.., 1 x rdim) --tile(b.shape)--> (a.., b..) * b --transpose(interleave)--> --reshape--> kron shape */
+static inline int pre_verif_kron_lhs_reshape(sv_t lhs, unsigned long rhs_dim) { return SV_LEN(lhs) <= CAP && rhs_dim <= CAP; }
+static inline int post_verif_kron_lhs_reshape(sv_t lhs, unsigned long rhs_dim, sv16_t ret)
+{ unsigned long d = SV_LEN(lhs) + rhs_dim; return SV_LEN(ret) == d && IMPLIES(g < d, SV_AT(ret, g) == (g < SV_LEN(lhs) ? SV_AT(lhs, g) : 1UL)); }
+/* ghost: KRP[t] = product of the extents aligned at result axis t (bound in the precondition; invariants cannot mention the product) */
+GHOST_ARR(unsigned long, KRP, 8)
+static inline int pre_verif_kron_dst_reshape(sv_t lhs, sv_t rhs)
+{
+  int ok = SV_LEN(lhs) <= CAP && SV_LEN(rhs) <= CAP;
+  unsigned long la = SV_LEN(lhs), lb = SV_LEN(rhs), d = MAXU(SV_LEN(lhs), SV_LEN(rhs));
+  for (unsigned long t = 0; t < CAP; t++)
+    if (ok && t < d && BC_HAS(la, d, t) && BC_HAS(lb, d, t)) ok = ok && GHOST_DEF(KRP[t], MUL_ul(SV_AT(lhs, t + la - d), SV_AT(rhs, t + lb - d)));
+  return ok;
+}
+static inline int post_verif_kron_dst_reshape(sv_t lhs, sv_t rhs, sv_t ret)
+{
+  unsigned long la = SV_LEN(lhs), lb = SV_LEN(rhs), d = MAXU(SV_LEN(lhs), SV_LEN(rhs));
+  if (SV_LEN(ret) != d) return 0;
+  if (!(g < d)) return 1;
+  if (BC_HAS(la, d, g) && BC_HAS(lb, d, g)) return SV_AT(ret, g) == KRP[g] && SV_AT(ret, g) == MUL_ul(SV_AT(lhs, g + la - d), SV_AT(rhs, g + lb - d));
+  return SV_AT(ret, g) == (BC_HAS(la, d, g) ? SV_AT(lhs, g + la - d) : SV_AT(rhs, g + lb - d));
+}
+
+/* ------------------------------------------------------------------ tensordot, explicit axes (a_axes[t] of a is contracted with b_axes[t] of b)
+ *   each operand --transpose--> (non-contracted axes in increasing order, contracted axes in the given order); then as for integer axes.
+ *   Preconditions as numpy requires them (the view unwraps normalize_axis without a check): axes in [-dim, dim), pairwise distinct.   */
+#define NORM(a, n) ((a) < 0 ? (unsigned long)((long)(n) + (long)(a)) : (unsigned long)(a))
+#define AXIS_OK(a, n) (-(long)(n) <= (long)(a) && (long)(a) < (long)(n))
+/* ghost: CNT[j] = number of axes t < j that are not contracted */
+GHOST_ARR(unsigned long, CNT, 10)
+static inline int spec_in_axes(svi_t axes, unsigned long dim, unsigned long j)
+{ int r = 0; for (unsigned long u = 0; u < CAP; u++) if (u < SV_LEN(axes) && NORM(SV_AT(axes, u), dim) == j) r = 1; return r; }
+static inline int pre_tensordot_axes(unsigned long dim, svi_t axes)
+{
+  int ok = dim <= CAP && SV_LEN(axes) <= dim;
+  for (unsigned long a = 0; a < CAP; a++) if (a < SV_LEN(axes)) ok = ok && AXIS_OK(SV_AT(axes, a), dim);
+  if (!ok) return 0;
+  for (unsigned long a = 0; a < CAP; a++)
+    for (unsigned long b = 0; b < CAP; b++) if (a < b && b < SV_LEN(axes)) ok = ok && NORM(SV_AT(axes, a), dim) != NORM(SV_AT(axes, b), dim);
+  ok = ok && GHOST_DEF(CNT[0], 0UL);
+  for (unsigned long j = 0; j < CAP; j++) ok = ok && GHOST_DEF(CNT[j + 1], CNT[j] + ((j < dim && !spec_in_axes(axes, dim, j)) ? 1UL : 0UL));
+  return ok;
+}
+static inline int post_tensordot_axes(unsigned long dim, svi_t axes, sv_t ret)
+{
+  unsigned long n = SV_LEN(axes);
+  if (SV_LEN(ret) != dim) return 0;
+  if (!(g < dim)) return 1;
+  if (g >= dim - n) return SV_AT(ret, g) == NORM(SV_AT(axes, g - (dim - n)), dim);
+  return SV_AT(ret, g) < dim && !spec_in_axes(axes, dim, SV_AT(ret, g)) && IMPLIES(g + 1UL < dim - n, SV_AT(ret, g) < SV_AT(ret, g + 1UL));
+}
+static inline int pre_verif_tensordot_lhs_transpose(unsigned long lhs_dim, svi_t axes) { return pre_tensordot_axes(lhs_dim, axes); }
+static inline int post_verif_tensordot_lhs_transpose(unsigned long lhs_dim, svi_t axes, sv_t ret) { return post_tensordot_axes(lhs_dim, axes, ret); }
+static inline int pre_verif_tensordot_rhs_transpose(unsigned long rhs_dim, svi_t axes) { return pre_tensordot_axes(rhs_dim, axes); }
+static inline int post_verif_tensordot_rhs_transpose(unsigned long rhs_dim, svi_t axes, sv_t ret) { return post_tensordot_axes(rhs_dim, axes, ret); }
